@@ -1024,7 +1024,39 @@ func init() {
 				e := newEmitter(c, ip)
 				rets := ip.returnsOf()
 				s := e.sym(rets[len(rets)-1].Results[0])
-				r.Check(strings.Contains(s, `isWireImport(`) && strings.Contains(s, `.Name()=="ProviderSet")`), "isProviderSetType/definition", ip.Decl.Pos(), "a type is a provider set iff it is the named type ProviderSet of the wire package (%s)", s)
+				// … decided as a truth table over: the type is a named type; its object has a package; that package is
+				// wire (by import path, vendoring removed); its name is ProviderSet
+				atom := func(e ast.Expr) (string, bool) {
+					e = ast.Unparen(e)
+					if v := ip.varOf(e); v != nil {
+						if d := ip.singleDef(v); d != nil && d.idx == 1 {
+							if ta, ok := ast.Unparen(d.rhs).(*ast.TypeAssertExpr); ok && ta.Type != nil && types.TypeString(ip.Info.TypeOf(ta.Type), nil) == "*go/types.Named" {
+								return "named", true
+							}
+						}
+					}
+					if cl := ip.isCall(e, pathW+".isWireImport"); cl != nil {
+						return "wire", true
+					}
+					if be, ok := e.(*ast.BinaryExpr); ok && (be.Op == token.EQL || be.Op == token.NEQ) {
+						if ip.isNilIdent(be.Y) && ip.isCall(be.X, "go/types.Object.Pkg", "go/types.object.Pkg", "go/types.TypeName.Pkg") != nil {
+							return "pkg", be.Op == token.NEQ
+						}
+						if lit, ok := be.Y.(*ast.BasicLit); ok && lit.Value == `"ProviderSet"` && ip.isCall(be.X, "go/types.Object.Name", "go/types.object.Name", "go/types.TypeName.Name") != nil {
+							return "name", be.Op == token.EQL
+						}
+					}
+					return "", false
+				}
+				okDef := true
+				for m := 0; m < 16; m++ {
+					env := map[string]bool{"named": m&1 != 0, "pkg": m&2 != 0, "wire": m&4 != 0, "name": m&8 != 0}
+					v, ok := ip.evalBoolFunc(env, atom)
+					if !ok || v != (m == 15) {
+						okDef = false
+					}
+				}
+				r.Check(okDef && strings.Contains(s, `isWireImport(`), "isProviderSetType/definition", ip.Decl.Pos(), "a type is a provider set iff it is the named type ProviderSet of the wire package (%s)", s)
 			}
 			// the packages loop skips only the wire package itself
 			okPk := false
